@@ -37,6 +37,7 @@ type WorkerOut struct {
 	Rule       string            `json:"rule"`
 	Replayed   *ReplayVerdict    `json:"replayed,omitempty"`
 	Digests    []string          `json:"event_digests,omitempty"`
+	Corpus     []string          `json:"corpus_digests,omitempty"` // C04: digests of the shared read-only corpus lists (compared across NumCPU classes by the driver)
 }
 
 // Report is a minimised violation, i.e. the replay file.
@@ -191,6 +192,9 @@ func TestSim(t *testing.T) {
 		return
 	}
 
+	if corpus := os.Getenv("SIM_CORPUS"); corpus != "" && scName == "hashsched" && prop == "C04" {
+		out.Corpus = corpusDigests(w, corpus, seed, from)
+	}
 	distinct := map[string]struct{}{}
 	knownSeen := map[string]int{}
 	l3Every := envInt("SIM_L3_EVERY", 0)
@@ -477,4 +481,36 @@ func TestRaceSide(t *testing.T) {
 		out.Distinct = append(out.Distinct, d)
 	}
 	writeOut()
+}
+
+// corpusDigests hashes 40 seeded lists over the shared read-only corpus (same absolute
+// paths for every worker of the batch) in a worker-specific order and under a
+// worker-specific seeded schedule. The lists depend only on VERIF_SEED, so every
+// worker — whatever its runtime.NumCPU() — must report the same 40 digests.
+func corpusDigests(w *World, corpus string, seed uint64, worker int) []string {
+	var files []string
+	filepath.WalkDir(corpus, func(p string, d os.DirEntry, err error) error {
+		if err == nil && p != corpus {
+			files = append(files, p)
+		}
+		return nil
+	})
+	sort.Strings(files)
+	var out []string
+	for j := 0; j < 40; j++ {
+		lr := NewRng(seed, "corpus-list", uint64(j))
+		list := Subset(lr, files, 1+lr.Intn(3), 4)
+		if lr.Chance(1, 3) && len(list) > 0 {
+			list = append(list, Pick(lr, list))
+		}
+		pr := NewRng(seed, "corpus-perm", uint64(j*1000+worker))
+		list = Shuffled(pr, list)
+		o := w.hashOnce(list, Sched{Policy: "random", Seed: pr.Uint64()}, j, nil, -1)
+		if !o.out.Returned || o.err != nil {
+			out = append(out, "error:"+outcomeStr(o.out))
+			continue
+		}
+		out = append(out, o.digest)
+	}
+	return out
 }
